@@ -277,6 +277,39 @@ def refusal_stream(ctx, n):
             ctx.corr_break(ob, {"input": inp, "impl": io, "model": m["outcome"]})
 
 
+def broken_row_stream(ctx, n):
+    """a file with one row whose timestamp is missing or unreadable, somewhere in the middle (two downloads pasted
+    together in a spreadsheet, a logger's error line): the input is malformed and must be refused -- never accepted with
+    the rest of the file silently dropped"""
+    ob = "a file containing a row without a readable timestamp is refused"
+    for i in range(n):
+        tr = L.gen_triple(ctx.rng)
+        which = ctx.rng.choice(["rain", "et", "level"])
+        rows = sorted(getattr(tr, which))
+        if len(rows) < 3:
+            continue
+        bad = ctx.rng.choice([None, None, "", "n/a", "2013-02-30 00:00:00", "24:00:00 2013-01-01"])
+        rows.insert(ctx.rng.randint(1, len(rows) - 1), (bad, 0.5))
+        setattr(tr, which, rows)
+        name = "b%d" % i
+        files = cli.write_dataset(ctx.tmp, name, tr.rain, tr.et, tr.level)
+        db = ctx.scratch(name + ".sqlite3")
+        r = cli.load(db, files, "UTC")
+        d = cli.dump(db, ["rainfall_intensity_staging", "water_level_staging", "evapotranspiration_staging", "grid_time"])
+        import os
+        for p_ in list(files) + [db]:
+            os.path.exists(p_) and os.remove(p_)
+        ctx.case(("broken-row", which, repr(bad), i), True)
+        ctx.obligation(ob, r[0] != "ok")
+        if r[0] == "ok":
+            kept = {k: (len(v) if isinstance(v, list) else v) for k, v in d.items()}
+            ctx.violation("impl-violation", "c11Refuses", {
+                "input": {"files": {"rain": tr.rain, "et": tr.et, "level": tr.level}, "file_with_the_row": which, "row": [bad, 0.5]},
+                "impl": list(r), "oracle": {"name": "c11Refuses", "result": False,
+                                            "witness": {"accepted": "a %s file with a row whose timestamp is %r" % (which, bad),
+                                                        "rows_kept": kept, "rows_in_file": len(rows)}}})
+
+
 def cli_zone_stream(ctx, zones):
     """whole `spowtd load --timezone Z`: staged epochs render back to the file's text in Z."""
     import pytz
@@ -329,6 +362,7 @@ def run(ctx):
         timestamp_stream(ctx, ZONES, 12, 2)
         text_stream(ctx)
         refusal_stream(ctx, 150)
+        broken_row_stream(ctx, 40)
         cli_zone_stream(ctx, ctx.rng.sample(ZONES, 12))
     else:
         import pytz
@@ -336,6 +370,7 @@ def run(ctx):
         timestamp_stream(ctx, allz, 40, 6)
         text_stream(ctx)
         refusal_stream(ctx, 3000)
+        broken_row_stream(ctx, 600)
         cli_zone_stream(ctx, allz[::3])
 
 
